@@ -38,7 +38,7 @@ TMP = c01.TMP
 ALL_FORMS = ["ndarray", "ndarray_int", "ndarray_bool", "ndarray_f32",
              "ndarray_F", "ndarray_Tview",
              "lists", "triples", "triples_zeros", "triples_min", "dict",
-             "dict_zeros",
+             "dict_zeros", "dict_full_colmajor", "dict_full_reversed",
              "list_arrays", "list_arrays_mixed", "list_dicts", "list_sparse",
              "list_sparse_csc", "list_sparse_coo", "list_sparse_lil",
              "csr", "csc", "coo",
@@ -168,6 +168,12 @@ def encode(rows, form):
              if a[i, j] != 0 or (form == "dict_zeros" and (i + j) % 2 == 0)}
         d[(n - 1, m - 1)] = a[n - 1, m - 1]
         return d, {}
+    if form in ("dict_full_colmajor", "dict_full_reversed"):
+        # every cell listed; a mapping has no order to speak of
+        keys = [(i, j) for j in range(m) for i in range(n)]
+        if form == "dict_full_reversed":
+            keys = [(i, j) for i in range(n) for j in range(m)][::-1]
+        return {k_: a[k_] for k_ in keys}, {}
     if form == "list_arrays":
         return [a[i].copy() for i in range(n)], {}
     if form == "list_arrays_mixed":
@@ -489,7 +495,12 @@ def check_malformed(case, rec):
         if case["all_junk"]:
             md = [case["junk"] for _ in ids]
         else:
-            md = [{"k": i} for i in ids]
+            # (the well-formed records may be any kind of mapping, e.g.
+            # records taken from another table's metadata())
+            from collections import defaultdict, OrderedDict
+            mk_ = [dict, lambda d_: defaultdict(lambda: None, d_),
+                   OrderedDict][(case["pos"] // max(len(ids), 1)) % 3]
+            md = [mk_({"k": i}) for i in ids]
             k = case["pos"] % len(ids)
             md[k] = case["junk"]
             late = k > 0
